@@ -52,9 +52,33 @@ def read_bytes(data, reader_factory=None, limit_s=10):
 
 
 def case(cid, mode, data, cat, result=None, prefixok=True, ship_recs=True, base=None, baseend='done',
-         ins=None, ship_file=True):
+         ins=None, ship_file=True, dom=None):
     recs, end, line, col, msgok = result if result is not None else read_bytes(data)
     return {'id': cid, 'mode': mode, 'file': bl(data) if ship_file else [], 'cmap': cmap_for(data, cat),
             'recs': recs if ship_recs else [], 'end': end, 'line': line, 'col': col,
             'msgok': msgok, 'prefixok': bool(prefixok), 'base': base or [], 'baseend': baseend,
-            'ins': ins or []}
+            'ins': ins or [], 'dom': dom or {'end': 'ok', 'closed': True}}
+
+
+class CloseLogStream(io.BytesIO):
+    pass
+
+
+def dom_load(data):
+    """DiffX.from_stream over a stream we own: (family of outcome, closed afterwards)."""
+    from pydiffx.dom import DiffX
+    from harness.abstraction import exc_family
+    st = io.BytesIO(data)
+    end = 'ok'
+    old = signal.signal(signal.SIGALRM, _alarm)
+    signal.setitimer(signal.ITIMER_REAL, 10)
+    try:
+        DiffX.from_stream(st)
+    except _Timeout:
+        end = 'timeout'
+    except Exception as e:       # noqa
+        end = exc_family(e)
+    finally:
+        signal.setitimer(signal.ITIMER_REAL, 0)
+        signal.signal(signal.SIGALRM, old)
+    return {'end': end, 'closed': bool(st.closed)}
